@@ -19,6 +19,7 @@ type expiryManager struct {
 	timer          *time.Timer // Schedules expiration of docs
 	nextExp        *uint32     // Timestamp when expTimer will run (0 if never)
 	expirationFunc func()      // Function to call when timer expires
+	stopped        bool        // Set by stop(): the bucket's database is going away
 }
 
 func newExpirationManager(expiractionFunc func()) *expiryManager {
@@ -35,6 +36,7 @@ func (e *expiryManager) stop() {
 	verifLock(e.mutex, "expiry.stop")
 	e.mutex.Lock()
 	defer e.mutex.Unlock()
+	e.stopped = true
 	if e.timer != nil {
 		e.timer.Stop()
 	}
@@ -62,6 +64,9 @@ func (e *expiryManager) _clearNext() {
 // setNext sets the next expiration time and schedules an expiration to occur after that time. Requires caller to have acquired mutex.
 func (e *expiryManager) _setNext(exp uint32) {
 	debug("_setNext(%d)", exp)
+	if e.stopped {
+		return // never re-arm after stop()
+	}
 	e.nextExp = &exp
 	if exp == 0 {
 		e.timer = nil
@@ -107,5 +112,8 @@ func (e *expiryManager) runExpiry() {
 	verifLock(e.mutex, "expiry.fire")
 	e.mutex.Lock()
 	defer e.mutex.Unlock()
+	if e.stopped {
+		return // the timer had already fired when stop() was called; the database is closed
+	}
 	e.expirationFunc()
 }
